@@ -75,10 +75,12 @@ def _xyz_ens(V):
     I, st = V.I, V.st
     T.use(st)
     E = V.cls("molli.chem.atom:Element")
-    e = M.mk_ens(V, 2, 2, bonds=())
+    # a single-conformer ensemble writes a one-frame file (the same text a Molecule writes)
+    nc = V.choose([2, 1], "frames")
+    e = M.mk_ens(V, nc, 2, bonds=())
     for a, el in zip(e.fields["_atoms"].items, ("N", "F")):
         a.fields["element"] = I.getattr_(E, el)
-    V.witness(lambda ev: {"op": "xyz-roundtrip", "kind": "ConformerEnsemble", "signature": "xyz-roundtrip-ensemble"})
+    V.witness(lambda ev: {"op": "xyz-roundtrip", "kind": "ConformerEnsemble", "frames": nc, "signature": f"xyz-roundtrip-ensemble/{nc}"})
     V.cover()
     w = V.method(e, "dumps_xyz", [], qual=f"{ENSQ}.dumps_xyz")
     V.ensure("writer/returns-text", z3.BoolVal(w.returned))
@@ -91,12 +93,42 @@ def _xyz_ens(V):
         return
     V.ensure("reader/accepts-the-written-text", z3.BoolVal(True))
     cr, cs = r.fields["_coords"], e.fields["_coords"]
-    V.ensure("roundtrip/frame-and-atom-count", z3.BoolVal(tuple(cr.tail) == (2, 2, 3)))
-    if tuple(cr.tail) == (2, 2, 3):
+    V.ensure("roundtrip/frame-and-atom-count", z3.BoolVal(tuple(cr.tail) == (nc, 2, 3)))
+    if tuple(cr.tail) == (nc, 2, 3):
         R6 = T.rounding(6)
         V.ensure("roundtrip/frames-in-order-with-their-coordinates",
-                 z3.And(*[to_z3(cr.data[c][i][k], "real") == R6(to_z3(cs.data[c][i][k], "real")) for c in range(2) for i in range(2) for k in range(3)]))
+                 z3.And(*[to_z3(cr.data[c][i][k], "real") == R6(to_z3(cs.data[c][i][k], "real")) for c in range(nc) for i in range(2) for k in range(3)]))
     V.ensure("roundtrip/elements", I.and_(*[I.eq(x.fields["element"], y.fields["element"]) for x, y in zip(e.fields["_atoms"].items, r.fields["_atoms"].items)]))
+
+
+@P.unit(f"{GEO}.yield_from_xyz", name="xyz element vocabulary: every element is written with a symbol that reads back as the same element, as a regular atom",
+        functions=[f"{GEO}.dump_xyz", f"{GEO}.dumps_xyz", f"{GEO}.yield_from_xyz", f"{GEO}.loads_xyz", "molli.parsing.xyz:read_xyz"])
+def _xyz_vocab(V):
+    I, st = V.I, V.st
+    T.use(st)
+    E = V.cls("molli.chem.atom:Element")
+    members = []
+    for m_ in E.members.values():
+        if m_ not in members and m_.name != "Unknown":
+            members.append(m_)
+    el = V.choose(members, "element")
+    m = M.mk_mol(V, "CartesianGeometry", 1, (), name="g")
+    m.fields["_atoms"].items[0].fields["element"] = el
+    V.witness(lambda ev: {"op": "xyz-vocabulary", "element": el.name, "signature": "xyz-vocabulary"})
+    V.cover()
+    w = V.method(m, "dumps_xyz", [], qual=f"{GEO}.dumps_xyz")
+    V.ensure("vocabulary/writer-returns-text", z3.BoolVal(w.returned))
+    if not w.returned:
+        return
+    try:
+        r = I.call(I.getattr_(V.cls(GEO), "loads_xyz"), [w.value], {})
+    except PyExc:
+        V.ensure("vocabulary/reader-accepts-the-symbol", z3.BoolVal(False))
+        return
+    V.ensure("vocabulary/reader-accepts-the-symbol", z3.BoolVal(True))
+    ra = r.fields["_atoms"].items
+    V.ensure("vocabulary/element-preserved", I.and_(len(ra) == 1, *[I.eq(y.fields["element"], el) for y in ra]))
+    V.ensure("vocabulary/a-real-element-is-not-read-as-a-dummy", z3.BoolVal(all(getattr(y.fields["atype"], "name", None) == "Regular" for y in ra)))
 
 
 @P.unit(f"{GEO}.yield_from_xyz", name="multi-molecule xyz text: every frame keeps its own elements, atom order and dummy flags",
